@@ -23,7 +23,7 @@ RULE = ("a coroutine function decorated with (a) a contextmanager-built manager 
         "one evaluation = one executed schedule; distinct = (scenario, trace)")
 ASSUMPTIONS = ["class-based ContextDecorator instances are shared between calls (documented default of _recreate_cm)"]
 EXHAUSTIVE = {"quick": False, "thorough": False}
-N_SCEN = {"quick": 200, "thorough": 3000}
+N_SCEN = {"quick": 800, "thorough": 30000}
 DFS_LIMIT = {"quick": 1500, "thorough": 40000}
 RANDOM_RUNS = {"quick": 40, "thorough": 250}
 
